@@ -44,6 +44,7 @@ type SearchStep struct {
 	ClearFirst bool    `json:"clear_first,omitempty"` // Clear() before the ResizeTT of this step instead of after it
 	Resize     int     `json:"resize,omitempty"`      // ResizeTT(bytes) before this search
 	Play       string  `json:"play"`                  // move to play afterwards: "best", "" (none; search the same root again) or UCI text
+	NewRoot    *Root   `json:"new_root,omitempty"`    // before this step: leave the current game and set up this root (the engines keep their state)
 	Research   bool    `json:"research,omitempty"`    // search the same root once more with a small budget afterwards (engine reusable)
 }
 
@@ -147,6 +148,29 @@ func (r *searchRun) run() {
 			return
 		}
 		st := &sc.Steps[si]
+		if st.NewRoot != nil {
+			p0, err := ref.ParseFEN(st.NewRoot.FEN)
+			if err != nil || p0.Valid() != nil {
+				r.out.Violations = append(r.out.Violations, harnessViolation("bad-scenario", "invalid new root "+st.NewRoot.FEN))
+				return
+			}
+			g = ref.NewGame(p0)
+			for _, ms := range st.NewRoot.Moves {
+				m, err := ref.ParseMove(ms)
+				if err != nil || !g.Cur().IsLegal(m) {
+					r.out.Violations = append(r.out.Violations, harnessViolation("bad-scenario", "new root move not legal: "+ms))
+					return
+				}
+				g.Push(m)
+			}
+			if sc.Style == "carry" {
+				if carried, err = engineBoard(g); err != nil {
+					r.out.Violations = append(r.out.Violations, Violation{Property: "C06", Kind: "fen-rejected", Detail: err.Error(), Step: si})
+					return
+				}
+			}
+			r.hist("%d NEWROOT %s +%d", si, st.NewRoot.FEN, len(st.NewRoot.Moves))
+		}
 		if st.Clear && st.ClearFirst {
 			prim.Clear()
 			for _, t := range twins {
